@@ -9,6 +9,7 @@ from ..report import Report
 PROP = "C17"
 EARLY = "mov rax, 0x2a\nnop\n"
 BIG = "mov rax, 0x1122334455667788\n" * 1400 + "ret\n"      # 14 kB: the internal buffer grows twice
+HUGE = "mov rax, 0x1122334455667788\n" * 20000 + "ret\n"    # 200 kB: more than three 64 KiB blocks
 # library calls whose refusal must surface as the documented failure value of the API call in progress
 MUST_FAIL = {"malloc", "mmap", "mremap", "open", "fstat", "fopen", "fwrite"}
 
@@ -39,6 +40,8 @@ def scenarios(tmp):
         # the degenerate file: nothing to read, but the same resources are requested
         "S10-empty-file": ["i", "A" + hexec.esc(EARLY), "f" + hexec.esc(empty), "o2", "G", "d"],
         "S11-empty-file-counting": ["c256:p:cc", "A" + hexec.esc(EARLY), "n4:" + hexec.esc(empty), "o2", "G", "d"],
+        # 200 kB of code (33 growth steps) written to a file: every later call of a long history can be refused too
+        "S12-bin-file-large": ["i", "A" + hexec.esc(EARLY), "A" + hexec.esc(HUGE), "B" + hexec.esc(out), "G", "d"],
         "S9-bin-file-twice": ["i", "A" + hexec.esc(EARLY), "B" + hexec.esc(out), "A" + hexec.esc(BIG), "B" + hexec.esc(out), "G",
                               "d"],
     }
@@ -159,7 +162,7 @@ def run(tier, seed):
     tmp = hexec.tmpdir()
     try:
         S, out = scenarios(tmp)
-        rep.rule = ("12 API scenarios (empty file through both file entry points; caller buffer; internal buffer growing twice, with retry, under chunk fitting, from the file entry point, "
+        rep.rule = ("13 API scenarios (200 kB of code written to a file; empty file through both file entry points; caller buffer; internal buffer growing twice, with retry, under chunk fitting, from the file entry point, "
                     "in a counting call; file assembly; file counting; binary output once and twice); "
                     "the library-side libc calls (malloc mmap mremap munmap open fstat close fopen fwrite fclose) of each are "
                     "recorded through -Wl,--wrap interposers, then the scenario is re-run once for EVERY call index refused "
